@@ -1,0 +1,23 @@
+//go:build verif
+
+package aggregation
+
+// Contracts for govc (see /verif/DESIGN.md, C07 / C14). Comment-only file.
+
+// accessors used by the renderers: read-only, rows are never nil
+//@ func (*TableAggregator).ComputeMinMax
+//@   pure
+//@   trusted
+//@ func (*TableAggregator).OrderedColumns
+//@   pure
+//@   trusted
+//@ func (*TableAggregator).OrderedRows
+//@   pure
+//@   trusted
+//@   ensures forall i in [0, len(result)) :: result[i] != nil
+//@ func (*TableRow).Value
+//@   pure
+//@   trusted
+//@ func (*TableRow).Name
+//@   pure
+//@   trusted
